@@ -415,3 +415,38 @@ def write_evidence(ctx, extra_cov=None):
 
 def first_lines(lines, n=12):
     return [json.loads(x) for x in lines[:n]]
+
+
+def generic_replay(ctx, path):
+    """./check <ID> --replay <file>: re-validates the recorded events of a replay file with TLC against the
+    trace specification that rejected them (exit 1 + VIOLATION line if they are still rejected).  Replay files
+    of storage-level checks also carry the behaviour (operation list) that was executed; when the file names
+    the executor, the behaviour is re-executed on the current tree first."""
+    rep = json.load(open(path))
+    r = rep.get("replay", {})
+    module, cfg = r.get("module"), r.get("cfg")
+    if not module or "events" not in r:
+        raise ToolError("replay file has no recorded trace to re-validate")
+    tp = ctx.path("replay.ndjson")
+    events = r["events"]
+    exe = r.get("exe")
+    if exe and r.get("behaviour"):
+        bpath = ctx.path("replay_beh.jsonl")
+        with open(bpath, "w") as f:
+            f.write(json.dumps(r["behaviour"]) + "\n")
+        run_harness(ctx, exe, [bpath, tp])
+    else:
+        with open(tp, "w") as f:
+            for e in events:
+                f.write(json.dumps(e, separators=(",", ":")) + "\n")
+    res = validate_trace(ctx, module, cfg, tp, name="replay", env=r.get("env"))
+    ctx.stage("replay", module=module, accepted=res["accepted"], matched=res["matched"], total=res["total"])
+    ctx.coverage["rule"] = "re-validation of one replay file"
+    ctx.samples = [events[-1]] if events else ["(empty)"]
+    ctx.states = ctx.transitions = max(1, res["matched"])
+    if not res["accepted"]:
+        report_violation(ctx, "replayed trace is still rejected by %s at event %d: %s" %
+                         (module, res["matched"] + 1, json.dumps(res["event"])[:300]),
+                         r, rep.get("signature"))
+    else:
+        ctx.traces_validated += 1
